@@ -183,6 +183,10 @@ def generate(rng, host='a.test', n_pages=None, requisites=True, redirects=True, 
         for u in html:
             if rng.random() < 0.5:
                 img = fresh('img', 'png')
+                if rng.random() < 0.3:
+                    # thumbnail markup <a href=X><img src=X></a>: one URL in two roles on one page, the link first
+                    add_link(rng, site, u, img.url, 'a', allow)
+                    site.features.add('same-url-linked-and-embedded')
                 add_link(rng, site, u, img.url, 'img', allow)
                 site.features.add('requisite')
                 if rng.random() < 0.3:
